@@ -294,6 +294,8 @@ def gen_base(rng, onehot=False):
     else:
         Q = [c14.pwm(rs, L, alpha, grid) for L in lens]
         nb = rng.choice([5, 8, 10, 12, 15, 20, 30, 50, 100])
+        if max(lens) > 13:           # _A/_A_csum are threads x Qmax^2 x Qmax*(3*nb+10) doubles: keep them small
+            nb = min(nb, 30)
     nT = rng.randint(3, 8)
     T = [c14.pwm(rs, rng.choice([1, 2, 2, 3, 4, 6, 9, 14, 25]), alpha, grid) for _ in range(nT)]
     if rng.random() < 0.4:
@@ -476,8 +478,10 @@ def shrink(inp):
             yield dict(inp, idxs=inp['idxs'][:i] + inp['idxs'][i + 1:])
     if inp['threads'] > 1:
         yield dict(inp, threads=1)
-    if inp['nn'] is not None:
+    if inp['nn'] is not None and inp.get('api', 'tomtom') != 'annotate':   # annotate_seqlets needs n_nearest
         yield dict(inp, nn=None)
+    if inp['nn'] is not None and inp['nn'] > 1:
+        yield dict(inp, nn=inp['nn'] - 1)
     if inp.get('poison') == 'B':
         yield dict(inp, poison='A')
     if inp.get('chunk'):
